@@ -2,7 +2,7 @@
 """TWM: tie of the threaded-writer MESSAGE FORMAT model (coq/TwrMsg.v, Properties_C06_msg.v) to the C.
 
 For generated API calls (fsr / user_data / annotation / utc / omit / flush with random arguments, string and binary
-storage, all data_size modes, NULL pointers, rejected calls, the two truncation cases) the extracted tm_encode /
+storage, all data_size modes, NULL pointers, rejected calls, enum arguments and FSR payload lengths out of range) the extracted tm_encode /
 tm_decode (ocaml/drv_twrmsg.ml) and the real /repo/src/threaded_writer.c are run on the same script and compared:
   * the return code of a rejected call,
   * the BYTES the producer put into the ring-buffer slot (taken from the slot after the call returned),
@@ -22,7 +22,8 @@ As a property module: run(ctx) (needs JLS_EXTRACT=/verif/coq/Extract_twrmsg.v JL
 """
 import os, random, struct, subprocess, sys
 
-VERIF = os.path.dirname(os.path.dirname(os.path.dirname(os.path.abspath(__file__))))
+# TWM_VERIF_ROOT: a scratch copy of the tree (coq/ ocaml/ tools/check_extract_names.py) to build the model from
+VERIF = os.environ.get("TWM_VERIF_ROOT") or os.path.dirname(os.path.dirname(os.path.dirname(os.path.abspath(__file__))))
 REPO = os.environ.get("JLS_REPO", "/repo")
 BUILD = os.environ.get("JLS_BUILD", os.path.join(VERIF, "build_twm"))
 PROP_FILES = ["Properties_C06_msg.v"]
@@ -113,6 +114,7 @@ static uint8_t * buf_of(const char * s) {      /* - NULL, . empty, else hex; exa
 static char line_[1 << 21]; static char out_[1 << 21];
 int main(void) {
     struct jls_twr_s * w = NULL;
+    setvbuf(stdout, NULL, _IOLBF, 0);       /* every answered line reaches the pipe: a crash is attributed to the right script line */
     if (jls_twr_open(&w, "/dev/null")) { printf("OPENFAIL\n"); return 1; }
     printf("LAYOUT %zu %zu %zu %zu %zu %zu %zu %zu %zu %zu %zu %zu %zu %zu %zu %zu %zu\n", sizeof(struct msg_header_s),
         offsetof(struct msg_header_s, h.user_data.chunk_meta), offsetof(struct msg_header_s, h.user_data.storage_type),
@@ -199,7 +201,7 @@ def build_model():
     exe = os.path.join(BUILD, "jlsmodel")
     if os.environ.get("TWM_USE_MAIN_MODEL") and os.path.exists(exe):
         return exe          # integrated: kind `twrmsg` is part of the main model binary (coq/Extract.v, ocaml/DRIVERS)
-    rc, out, err = sh(["make", "-C", os.path.join(VERIF, "ocaml"), "B=" + BUILD,
+    rc, out, err = sh(["make", "-C", os.path.join(VERIF, "ocaml"), "B=" + BUILD, "V=" + VERIF,
                        "EXTRACT=" + os.path.join(VERIF, "coq", "Extract_twrmsg.v"), "DRV=drv_twrmsg.ml"])
     if rc != 0:
         print((out + err)[-3000:])
@@ -262,16 +264,28 @@ def gen_case(rng):
         return "fsr %x %x %s %x %s" % (bits, sig, hx(rnd_i64(rng)), count, tok), lab
     if k < 0.50:
         stype = rng.choice([0, 1, 1, 2, 3, 4, 255])
-        tok, dsz, lab = data_arg(rng, stype)
+        if rng.random() < 0.06:
+            stype = rng.choice([256, 257, 258, 259, 0x102 + 256, 0x7fffffff, 0x80000000, 0xffffffff, 0xfffffffe, rng.randrange(256, 2**32)])
+        tok, dsz, lab = data_arg(rng, stype if stype < 256 else 1)  # out of range: data_size <= buffer, safe on a producer that does not reject
+        if stype > 255:
+            return "ud %x %x %x %s" % (rng.randrange(65536), stype, dsz, tok), "range_enum_ud"
         return "ud %x %x %x %s" % (rng.randrange(65536), stype, dsz, tok), "ud_st%d_%s" % (stype, lab)
     if k < 0.75:
         stype = rng.choice([1, 2, 2, 3, 0, 7])
-        tok, dsz, lab = data_arg(rng, stype)
+        atype = rng.randrange(0, 5)
+        r = rng.random()
+        if r < 0.04:
+            stype = rng.choice([256, 257, 258, 259, 0x80000001, 0xffffffff, rng.randrange(256, 2**32)])
+        elif r < 0.08:
+            atype = rng.choice([255, 256, 257, 0x100 + rng.randrange(5), 0xffffffff, rng.randrange(256, 2**32)])
+        tok, dsz, lab = data_arg(rng, stype if stype < 256 else 1)
+        if stype > 255 or atype > 255:
+            lab = "range_enum_ann"
         y = rng.choice([0, 0x3f800000, 0xbf800000, 0x7fc00000, 0x7f800000, rng.randrange(2**32)])
         if (y & 0x7f800000) == 0x7f800000 and (y & 0x7fffff) and not (y & 0x400000):
             y |= 0x400000                                            # no signalling NaNs through a float argument
-        return "ann %x %s %x %x %x %x %x %s" % (rng.randrange(65536), hx(rnd_i64(rng)), y, rng.randrange(0, 5), rng.randrange(256),
-                                                stype, dsz, tok), "ann_st%d_%s" % (stype, lab)
+        return "ann %x %s %x %x %x %x %x %s" % (rng.randrange(65536), hx(rnd_i64(rng)), y, atype, rng.randrange(256),
+                                                stype, dsz, tok), (lab if lab == "range_enum_ann" else "ann_st%d_%s" % (stype, lab))
     if k < 0.85:
         return "utc %x %s %s" % (rng.randrange(65536), hx(rnd_i64(rng)), hx(rnd_i64(rng))), "utc"
     if k < 0.93:
@@ -279,12 +293,25 @@ def gen_case(rng):
     return "flush", "flush"
 
 
+# out-of-range arguments: the repaired producers reject them with JLS_ERROR_PARAMETER_INVALID before queueing
+# (C06_msg_out_of_range_rejected); a producer that still truncates queues a message and the comparison reports
+# "result_*: C 'ok ...' model 'rc 5'" with the line as failing input.  Buffers are sized so that a truncating
+# producer does not crash (except the last line: message size exactly 2^32, the first size over the limit).
 FIXED = [
-    ("fsr 40 1 0 20000000 .", "trunc_fsr_len"),           # 2^29 samples of 64 bits: payload length wraps to 0 (C06_msg_fsr_length_truncation_refuted)
-    ("ann 1 0 0 1 0 102 2 6162", "trunc_enum_stype"),      # storage_type 258 arrives as 2 (C06_msg_enum_truncation_refuted)
-    ("ann 1 0 0 101 0 1 2 6162", "trunc_enum_atype"),      # annotation_type 257 arrives as 1
-    ("ud 7 102 2 6162", "trunc_enum_ud"),
+    ("fsr 40 1 0 20000000 .", "range_fsr_len"),            # 2^29 samples of 64 bits = 2^32 bytes (uint32: 0): C06_msg_fsr_length_overflow_rejected
+    ("fsr 40 1 0 20000001 0102030405060708", "range_fsr_len"),   # 2^32 + 8 bytes (uint32: 8)
+    ("fsr 20 1 -5 40000002 0102030405060708", "range_fsr_len"),  # 2^32 + 8 bytes with 32-bit samples
+    ("ann 1 0 0 1 0 102 2 6162", "range_enum_stype"),       # storage_type 258 (uint8: 2 = STRING): C06_msg_enum_out_of_range_rejected
+    ("ann 1 0 0 1 0 100 2 6162", "range_enum_stype"),       # 256
+    ("ann 1 0 0 1 0 ffffffff 2 6162", "range_enum_stype"),  # a negative enum value
+    ("ann 1 0 0 101 0 1 2 6162", "range_enum_atype"),       # annotation_type 257 (uint8: 1)
+    ("ann 1 0 0 100 0 1 2 6162", "range_enum_atype"),
+    ("ann 1 0 0 ff 0 1 2 6162", "ann_atype_255"),           # 255: the largest value that fits, accepted
+    ("ud 7 102 2 6162", "range_enum_ud"),
+    ("ud 7 100 2 6162", "range_enum_ud"),
+    ("ud 7 ff 2 6162", "ud_st255_bin"),                     # accepted
 ]
+LAST = [("fsr 8 1 0 ffffffd8 .", "range_fsr_len")]          # 2^32 - 40 bytes: header + payload = 2^32, one over the limit
 
 
 def mask(msghex):
@@ -301,7 +328,7 @@ def mask(msghex):
 def check(tier, seed, report):
     rng = random.Random(seed)
     n = 300 if tier == "quick" else 6000
-    cases = list(FIXED) + [gen_case(rng) for _ in range(n)]
+    cases = list(FIXED) + [gen_case(rng) for _ in range(n)] + list(LAST)
     cases.append(("close", "close"))                        # last line: jls_twr_close
     lines = [c for c, _ in cases]
     model = build_model()
@@ -325,13 +352,18 @@ def check(tier, seed, report):
         if rc != 0 or len(cres) != len(lines):
             k = min(len(cres), len(lines) - 1)
             report("crash_" + variant, lines[k], "probe rc=%d after %d/%d lines: %s" % (rc, len(cres), len(lines), cerr[-600:]))
-            continue
-        stats["variants"].append(variant)
+            # the lines answered before the crash are still compared
+            if cout and not cout.endswith("\n"):
+                cres = cres[:-1]                                   # the line being printed when the probe died
+        else:
+            stats["variants"].append(variant)
         for (line, lab), m, c in zip(cases, mres, cres):
             if variant == "plain":
                 stats["labels"][lab] = stats["labels"].get(lab, 0) + 1
-            if "NOT-NORMAL-FORM" in m and not lab.startswith("trunc_enum"):
-                report("normal_form", line, "decode(encode c) is not tm_norm c on an input outside the two known truncation classes: " + m)
+            if "NOT-NORMAL-FORM" in m:
+                report("normal_form", line, "decode(encode c) is not tm_norm c (contradicts C06_msg_roundtrip): " + m)
+            if lab.startswith("range_") and m != "rc 5":
+                report("range_model", line, "the model does not reject an out-of-range call with PARAMETER_INVALID: " + m[:200])
             m = m.replace(" NOT-NORMAL-FORM", "")
             if m.startswith("ok ") and c.startswith("ok ") and " " in c[3:]:
                 mm, mcall = (m[3:].split(" ", 1) + [""])[:2]
@@ -364,7 +396,7 @@ def run(ctx):
         for j in range(k):
             ctx.count((lab, j), nontrivial=True, sample=lab if j == 0 else None)
     ctx.extra["distribution"] = st
-    ctx.cov["rule"] = "random API calls (all kinds, storage types, data_size modes, NULL, rejected, widths 1..64) + 4 fixed truncation cases"
+    ctx.cov["rule"] = "random API calls (all kinds, storage types, data_size modes, NULL, rejected, widths 1..64, enum arguments / FSR lengths out of range) + fixed range-boundary cases"
     return vlib.finish(ctx, "proof", "python3 tools/props/TWM.py", trusted_extra=["the probe generated by tools/props/TWM.py (recording stubs for jls_wr_*)"],
                        note="message bytes compared with padding positions of fsr/utc/annotation masked (gcc leaves them uninitialised)")
 
